@@ -585,19 +585,16 @@ func (e *Evaluator) evalBinaryExpr(expr *ExprBinary) (*Cell, error) {
 
 	switch expr.OpToken.Tag {
 	case LSquare, Dot:
-		if left.Value.Tag == ValueUnknown {
-			if right.Value.Tag == ValueNum {
-				// if it's unknown and the rhs is a number, make it an array
-				left.Value = NewArray()
-			} else {
-				// otherwise make it an object
-				left.Value = NewObject()
+		// an unset variable has no members yet: it only becomes an array or an
+		// object when a member is assigned (see createSpeculativeObjects), so
+		// that reading through it changes nothing
+		var member *Cell
+		if left.Value.Tag != ValueUnknown {
+			var err error
+			member, err = left.Value.GetMember(right.Value)
+			if err != nil {
+				return nil, e.error(expr.Left.Token(), err.Error())
 			}
-		}
-
-		member, err := left.Value.GetMember(right.Value)
-		if err != nil {
-			return nil, e.error(expr.Left.Token(), err.Error())
 		}
 
 		if member == nil {
@@ -744,6 +741,16 @@ func (e *Evaluator) createSpeculativeObjects(specObj *Cell) (*Cell, error) {
 		memberToSet = NewValue(*specObj.Value.Num)
 	} else {
 		panic("speculative object has no Str or Num")
+	}
+
+	if parent.Tag == ValueUnknown {
+		// first store through an unset variable: a number makes it an array,
+		// anything else an object
+		if memberToSet.Tag == ValueNum {
+			*parent = NewArray()
+		} else {
+			*parent = NewObject()
+		}
 	}
 
 	var objToSet *Value
